@@ -238,6 +238,45 @@ def api_history(ex, fifo=False, crash_is_stuck=True):
     return out
 
 
+def stream_groups(files, proj, keep=lambda ex: True, keep_events=False, counters=None):
+    """Read raw trace files one execution at a time, project, de-duplicate: returns [history, representative, count] lists in
+    first-seen order.  Raw events are dropped right away (a representative keeps program, schedule and status: enough to re-run
+    it) unless keep_events - a thorough run explores millions of executions."""
+    seen = {}
+    order = []
+    for f in files:
+        for ex in iter_execs(f):
+            if counters is not None:
+                counters[ex.status] = counters.get(ex.status, 0) + 1
+            if not keep(ex):
+                continue
+            h = proj(ex)
+            key = json.dumps(h, sort_keys=True, separators=(',', ':'))
+            g = seen.get(key)
+            if g is not None:
+                g[2] += 1
+                continue
+            if not keep_events:
+                ex.events = []
+            seen[key] = [h, ex, 1]
+            order.append(key)
+    return [seen[k] for k in order]
+
+
+def merge_groups(lists):
+    seen = {}
+    order = []
+    for groups in lists:
+        for h, ex, n in groups:
+            key = json.dumps(h, sort_keys=True, separators=(',', ':'))
+            if key in seen:
+                seen[key][2] += n
+            else:
+                seen[key] = [h, ex, n]
+                order.append(key)
+    return [tuple(seen[k]) for k in order]
+
+
 def dedup_histories(execs, proj):
     """Group executions by projected history; returns list of (history, representative exec, count)."""
     seen = {}
